@@ -110,6 +110,24 @@ def np_full(ex, args, kwargs, node, st):
     shape, fill = args[0], args[1]
     kind = 'val'
     oid = st.new_oid('N')
+    if isinstance(shape, Ref):
+        shape = tuple(ex.concrete_items(shape, st))
+    if isinstance(fill, str):
+        # array of short strings (dtype '<U..'): cells are observed through `ch in cell` only (vals.CSetS)
+        dt = kwargs.get('dtype')
+        if not (isinstance(dt, str) and dt.startswith('<U')) or not (isinstance(shape, tuple) and len(shape) == 2):
+            raise Unsupported('np.full of strings: only 2-D with a <U dtype')
+        r, c = [ex.need_num(x, node) for x in shape]
+        if ex.mode == 'run' and is_cint(r) and is_cint(c):
+            st.heap[oid] = ArrObj('cset', items=[[fill] * c for _ in range(r)], shape=(r, c), pykind='ndarray', dtype=dt)
+        else:
+            arr = fresh('npfull', arr2sort(CSetS))
+            qi, qj = z3.Consts('nf_i!%d nf_j!%d' % (ex.qcount(), ex.qcount()), IntS)
+            st.assume(z3.ForAll([qi, qj], sel2(arr, qi, qj) == cs_of(fill), patterns=[sel2(arr, qi, qj)]))
+            st.heap[oid] = ArrObj('cset', arr=arr, shape=(r, c), pykind='ndarray', dtype=dt)
+        ex.notes.add('NumPy string cells (dtype %s) are modelled as character sets: only `ch in cell` is observable; '
+                     'truncation to the dtype width is not modelled (each cell receives at most three marks)' % dt)
+        return Ref(oid)
     fv = vlit(fill)
     if isinstance(shape, tuple) and len(shape) == 2:
         r, c = [ex.need_num(x, node) for x in shape]
